@@ -124,7 +124,8 @@ class InsertOnce(Contract):
     # ---- use as callee
     def apply(self, I, args, kwargs):
         d, key, value = args
-        ref = d.get(key) if False else None
+        if hasattr(value, "attrs") and "__ref__" in getattr(value, "attrs", {}):
+            value = value.attrs["__ref__"]  # an abstract entity is stored by its reference term
         used = z3.And(zbool(d.has(key)), zbool(d.get(key).alive))
         if I.path.branch(used, f"insert_once-key-live@{I.cur_line}"):
             I.raise_(RuntimeError)
